@@ -343,6 +343,23 @@ def racing_backups(ctx, n):
                    "b": {"op": "backup", "src": "srcb", "opts": scen.small_opts(ctx.rng)}},
                   {"op": "arch"}, {"op": "versions"}]
         cases.append({"id": f"r{t}", "steps": steps, "sched": sched, "pre": pre})
+    # two backups that share content: one has listed the block directory (the shared block is not there), the other then
+    # stores the shared block and finishes, and the first reaches its own write of that block: it must not write over it
+    for k in range(7, 19):
+        ta, tb = scen.small_tree(ctx.rng), scen.small_tree(ctx.rng)
+        shared = {"k": "f", "data": gen.rand_bytes(ctx.rng, 24).hex(), "mode": 0o644, "mtime": 10**18}
+        ta["c"][".0shared"] = dict(shared)
+        tb["c"][".0shared"] = dict(shared)
+        ta["c"]["who"] = {"k": "f", "data": "41", "mode": 0o644, "mtime": 10**18}
+        tb["c"]["who"] = {"k": "f", "data": "4242", "mode": 0o644, "mtime": 10**18 + 1}
+        first = k % 2
+        sched = [first] * k + [1 - first] * 400
+        o = {"meph": 100000, "mbs": 64, "sfc": 0}
+        steps = [{"op": "init"}, {"op": "mktree", "path": "srca", "tree": ta}, {"op": "mktree", "path": "srcb", "tree": tb},
+                 {"op": "snap", "path": "srca"}, {"op": "snap", "path": "srcb"}, {"op": "arch"},
+                 {"op": "race", "schedule": sched, "a": {"op": "backup", "src": "srca", "opts": o}, "b": {"op": "backup", "src": "srcb", "opts": o}},
+                 {"op": "arch"}, {"op": "versions"}]
+        cases.append({"id": f"s{k}", "steps": steps, "sched": sched, "pre": False})
     res = ctx.cvh_run(cases)
     for c in cases:
         r = res.get(c["id"])
